@@ -27,6 +27,19 @@ Proof. exact (safe_or_refuted_gen tbl dispatchers unsafe_have_witness). Qed.
 Theorem c_safe_unless_listed : forall d, In d dispatchers -> ~ In d unsafe -> safe tbl d.
 Proof. exact (safe_unless_listed_gen tbl dispatchers unsafe_have_witness). Qed.
 
+(* the tree-specific obligation at full strength: the checker accepts every dispatcher of the
+   library built from the current tree, hence every one of them is safe.  (When this fails the
+   check reports each rejected entry with its witness environment, replayed on the real
+   dispatcher.) *)
+Lemma all_checked : forallb (check_disp tbl) dispatchers = true.
+Proof. vm_compute. reflexivity. Qed.
+
+Theorem c_all_safe : forall d, In d dispatchers -> safe tbl d.
+Proof.
+  intros d Hin. apply check_disp_safe. pose proof all_checked as H.
+  rewrite forallb_forall in H. exact (H d Hin).
+Qed.
+
 (* one family per shared object *)
 Lemma groups_checked : forallb (group_checked dispatchers) group_names = true.
 Proof. vm_compute. reflexivity. Qed.
